@@ -73,12 +73,20 @@ def case(draw, tier="quick"):
     else:
         # charges and coordinates with all six printed decimals in use
         spec["charges"] = [round(c + (1 if c > 0 else -1) * 1e-6 * draw(hperm.integers(0, 499)), 6) for c in spec["charges"]]
+    wide = False
+    if spec["pos"] and draw(hperm.integers(0, 7)) == 0:
+        # coordinates that need more than the ten characters of the usual column (unwrapped trajectories, atoms far from
+        # the cell): the columns must still be separated
+        wide = True
+        for _ in range(draw(hperm.integers(1, 3))):
+            i = draw(hperm.integers(0, len(spec["pos"]) - 1))
+            spec["pos"][i][draw(hperm.integers(0, 2))] = draw(st.sampled_from([-123.456789, -1000.5, 12345.678901, -99.9999996, 100000.25]))
     norm = draw(st.booleans())
     if norm:
         spec["pair_coeffs"] = [normalise(c, "pair") for c in spec["pair_coeffs"]]
         for k in M.KINDS:
             spec[k + "_coeffs"] = [normalise(c, k) for c in spec[k + "_coeffs"]]
-    return {"spec": spec, "style": draw(st.sampled_from(["full", "full", "atomic"])), "normalised": norm}
+    return {"spec": spec, "style": draw(st.sampled_from(["full", "full", "atomic"])), "normalised": norm, "wide": wide}
 
 
 def save_text(a, style):
@@ -272,6 +280,8 @@ def oracle(c, stats):
     stats.count("style:" + style)
     stats.count("cell:%s" % ("none" if cell is None else "tilted" if tilted else "ortho"))
     stats.count("normalised:%s" % c["normalised"])
+    if c.get("wide"):
+        stats.count("coordinates-wider-than-the-column")
     stats.count("atoms:%s" % ("1-30" if len(spec["pos"]) <= 30 else "31-127" if len(spec["pos"]) <= 127 else "128-255" if len(spec["pos"]) <= 255 else "256+"))
     stats.count("max-table-rows:%s" % ("10+" if max([len(spec["type_labels"])] + [len(spec[k + "_coeffs"]) for k in M.KINDS]) >= 10 else "<10"))
     gen_atoms.spec_stats(spec, stats)
